@@ -11,13 +11,14 @@ PROP = 'C07'
 WATCHDOG_S = 2.0
 RULE = ("byte strings as messages and as files: random bytes; well-formed messages (packaged + generated configurations, "
         "ASCII/EBCDIC codecs, both bitmap forms, PDS + ICC) with every byte of every length prefix, PDS sub-length / tag, "
-        "bitmap byte, MTI and TLV length substituted from the class alphabet {digits, sign, space, underscore, NBSP, NUL, "
+        "bitmap byte, MTI, TLV length and every byte of `decimal` typed elements substituted from the class alphabet {digits, sign, space, underscore, NBSP, NUL, "
         "high bytes}; truncation at every offset, insert / delete / bit-flip multi-point mutations; IPM/VBS files with "
         "mutated records and lengths, blocked and unblocked; command-line tools on malformed files. Every case under a "
         "2 s watchdog. Non-trivial = the mutated input differs from a valid message; distinct = distinct input bytes")
 TRUSTED = c01.TRUSTED + ["a pure-Python hang is interrupted by SIGALRM (the watchdog) and reported as `diverge`"]
-ASSUMPTIONS = c01.ASSUMPTIONS + ["configurations without a `decimal` field (decimal.InvalidOperation is not a ValueError; "
-                                 "the packaged configuration has none)"]
+ASSUMPTIONS = c01.ASSUMPTIONS + ["`decimal` typed elements of at most 15 characters in the correspondence (CPython refuses "
+                                 "exponents beyond about 10^18, which the Lean model of Decimal() does not bound; the "
+                                 "theorems do not depend on it)"]
 
 cfg_of, cfg_id = c01.cfg_of, c01.cfg_id
 
@@ -129,7 +130,7 @@ def positions(data, cfg, codec, hexbm):
     """byte offsets of the structural parts of a valid message"""
     hdr = 36 if hexbm else 20
     pos = {'mti': list(range(0, 4)), 'bitmap': list(range(4, hdr)), 'prefix': [], 'pdslen': [], 'pdstag': [], 'tlvlen': [],
-           'content': []}
+           'content': [], 'decimal': []}
     try:
         d, framing = iu.ref_decode(data, cfg, codec, hexbm)
     except iu.RefError:
@@ -140,6 +141,8 @@ def positions(data, cfg, codec, hexbm):
             pos['content'].append(hdr + co)
             pos['content'].append(hdr + co + cl - 1)
         fc = cfg[str(bit)]
+        if fc.get('field_python_type') == 'decimal':
+            pos['decimal'] += [hdr + co + i for i in range(cl)]
         if fc.get('field_processor') == 'PDS':
             p = 0
             text = data[hdr + co:hdr + co + cl].decode(codec)
@@ -172,16 +175,60 @@ def alphabet_bytes(codec):
     return sorted(out)
 
 
+def decimal_alphabet(codec):
+    out = set(alphabet_bytes(codec))
+    for ch in '.eE+-nNaAsSiIfFtTyY_ 09':
+        e = ch.encode(codec)
+        if len(e) == 1:
+            out.add(e[0])
+    return sorted(out)
+
+
+DECIMAL_TEXTS = ['12.5', '0012.50', '-00.00', '1_0.e+5', '.5E-3', 'NaN', 'nAn0012', '-sNaN', 'sNaN7', '+InFiNiTy', 'inf', '-Inf',
+                 'infin', 'infinity0', '.', '1e', '1e+', '1e-0', '1 2', '1.2.3', '1e5e5', '1e5.0', '_', '_1_', '0.e5', '00',
+                 '--1', '+-1', '12ab.5', '1\x00', '\xa01\x85', '1e999', '-0', '+.5', '5.', 'e5', 'nan_', 'na', 'snan-1', 'Infinity_',
+                 '1__2', '1_._2', '१२.५', '1\xb2', '0x10', '1,5', "1'5", '1E+05']
+
+
+def decimal_corpus():
+    """hand-made: every interesting text of Decimal()'s grammar, padded both ways, in a 10- and a 3-character element"""
+    bm = lambda bits: sum(1 << (128 - b) for b in [1] + bits).to_bytes(16, 'big')   # noqa: E731
+    cfg = {'4': {'field_name': 'd10', 'field_type': 'FIXED', 'field_length': 10, 'field_python_type': 'decimal'},
+           '5': {'field_name': 'd3', 'field_type': 'FIXED', 'field_length': 3, 'field_python_type': 'decimal'},
+           '6': {'field_name': 'dv', 'field_type': 'LLVAR', 'field_length': 0, 'field_python_type': 'decimal'}}
+    out = []
+    for codec in ('latin_1', 'cp500'):
+        for raw in DECIMAL_TEXTS:
+            t = raw
+            for variant in (t.ljust(10), t.rjust(10), t.center(10)):
+                try:
+                    body = variant[:10].encode(codec)
+                except UnicodeError:
+                    continue
+                if len(body) == 10:
+                    out.append((cfg, codec, b'1240'.decode().encode(codec) + bm([4]) + body))
+            try:
+                body = t.encode(codec)
+                if len(body) <= 99:
+                    out.append((cfg, codec, '1240'.encode(codec) + bm([6]) + f'{len(body):02d}'.encode(codec) + body))
+                if len(body) == 3:
+                    out.append((cfg, codec, '1240'.encode(codec) + bm([5]) + body))
+            except UnicodeError:
+                pass
+    return out
+
+
 def mutants(rng, data, cfg, codec, hexbm, per_class, thorough):
     pos = positions(data, cfg, codec, hexbm)
     alpha = alphabet_bytes(codec)
+    dalpha = decimal_alphabet(codec)
     out = []
     for cls, offs in pos.items():
         offs = sorted(set(offs))
         if not thorough and len(offs) > per_class:
             offs = sorted(rng.sample(offs, per_class))
         for o in offs:
-            vals = range(256) if (cls in ('bitmap', 'tlvlen') and thorough) else (
+            vals = range(256) if (cls in ('bitmap', 'tlvlen') and thorough) else dalpha if cls == 'decimal' else (
                 alpha if cls not in ('bitmap', 'tlvlen') else [0x00, 0x01, 0x7f, 0x80, 0xff, data[o] ^ 1, data[o] ^ 0x80, 0x30, 0x66, 0x7a])
             for v in vals:
                 if v != data[o]:
@@ -197,7 +244,7 @@ def explore(run, tier):
     seeds = []
     nseed = 60 if not thorough else 200
     for i in range(nseed):
-        cfg = 'pkg' if i % 3 else iu.gen_config(rng)
+        cfg = 'pkg' if i % 3 else iu.gen_config(rng, with_decimal=(i % 2 == 0))
         codec = ['latin_1', 'cp500', 'cp037', 'ascii'][i % 4]
         hexbm = i % 2
         from cardutil import iso8583
@@ -249,6 +296,8 @@ def explore(run, tier):
     ]
     for cfg, codec, hexbm, data in corpus:
         cases.append({'k': 'msg', 'cfg': cfg, 'codec': codec, 'hex': hexbm, 'data': data.hex(), 'mut': 'corpus'})
+    for cfg, codec, data in decimal_corpus():
+        cases.append({'k': 'msg', 'cfg': cfg, 'codec': codec, 'hex': 0, 'data': data.hex(), 'mut': 'decimal-corpus'})
     for _ in range(1500 if not thorough else 30000):
         n = rng.choice([0, 3, 4, 19, 20, 21, 36, 40, rng.randrange(0, 200)])
         data = bytes(rng.getrandbits(8) for _ in range(n))
